@@ -306,3 +306,10 @@ def factory1(ctx: Ctx, chk) -> None:
             chk.ok(rule, f"{f.fq}::return", "returns the opened (reader, writer) pair", ctx.loc(f, rets[0]), sample=False)
         else:
             chk.refute(rule, f"{f.fq}::return", "_open_connection does not return the pair produced by the opener", ctx.loc(f, f.node))
+
+
+def thorough(ctx: Ctx, chk) -> None:
+    from .common import prune_diff
+
+    entries = [(ctx.cls(ST).find_method(n), None) for n in ("connect", "read", "write", "disconnect")]
+    prune_diff(ctx, chk, entries)
